@@ -22,7 +22,7 @@ def main():
     mod = importlib.import_module(CHECKS[a.prop])
     try:
         if a.replay:
-            rc = mod.replay(a.replay)
+            rc = (getattr(mod, 'replay', None) or getattr(mod, 'replay_cmd'))(a.replay)
         else:
             rc = mod.main(a.tier, only=a.only)
     except Inconclusive as ex:
